@@ -24,7 +24,25 @@ pub fn ty_str(t: &Ty, cat: &Catalogue) -> String {
         ),
         Ty::Cs(k) => format!("CS<{}>", k.rust()),
         Ty::Item(i) => match &cat.items[*i] {
-            Item::Struct(s) if s.generic => format!("{}<{}>", cat.item_name(*i), ty_str(&s.fields[0].ty, cat)),
+            Item::Struct(s) if s.generic => {
+                let t0 = ty_str(&s.fields[0].ty, cat);
+                match s.generic_kind {
+                    0 => format!("{}<{t0}>", cat.item_name(*i)),
+                    1 => {
+                        let Ty::P(inner) = &s.fields.last().unwrap().ty else { panic!("const-generic field must be P<[_; N]>") };
+                        let Ty::Arr(_, n) = &**inner else { panic!("const-generic field must be P<[_; N]>") };
+                        format!("{}<{t0}, {n}>", cat.item_name(*i))
+                    }
+                    _ => {
+                        let Ty::P(inner) = &s.fields[1].ty else { panic!("second field must be P<Vec<U>>") };
+                        let Ty::Vec(u) = &**inner else { panic!("second field must be P<Vec<U>>") };
+                        format!("{}<{t0}, {}>", cat.item_name(*i), ty_str(u, cat))
+                    }
+                }
+            }
+            Item::Enum(e) if e.generic => {
+                format!("{}<{}>", cat.item_name(*i), ty_str(&e.variants[1].fields.as_ref().unwrap()[0].ty, cat))
+            }
             _ => cat.item_name(*i),
         },
     }
@@ -42,6 +60,37 @@ fn render_attrs(mut args: Vec<String>, style: u8, indent: &str) -> String {
         args.iter().map(|a| format!("{indent}#[deserr({a})]\n")).collect()
     } else {
         format!("{indent}#[deserr({})]\n", args.join(", "))
+    }
+}
+
+/// A string literal for `rename`, written in one of several equivalent ways.
+fn rename_lit(r: &str, style: u8) -> String {
+    match style {
+        // the first character as a unicode escape
+        2 => {
+            let mut cs = r.chars();
+            match cs.next() {
+                Some(c) => format!("\"\\u{{{:x}}}{}\"", c as u32, cs.as_str().escape_default()),
+                None => "\"\"".to_string(),
+            }
+        }
+        // the last ASCII character as a hex escape (raw strings are left to C16's valid programs: a
+        // derive that refuses one would stop the whole catalogue from compiling)
+        3 if r.chars().last().map(|c| c.is_ascii_alphanumeric() || c == '_').unwrap_or(false) => {
+            let last = r.chars().last().unwrap();
+            let head = &r[..r.len() - 1];
+            format!("\"{}\\x{:02x}\"", head.escape_default(), last as u32)
+        }
+        _ => format!("{r:?}"),
+    }
+}
+
+/// A user function written by name (imported) or by its full path.
+fn fn_path(name: &str, style: u8) -> String {
+    if style >= 2 {
+        format!("mc_core::prelude::{name}")
+    } else {
+        name.to_string()
     }
 }
 
@@ -68,12 +117,17 @@ fn field_attrs(f: &FieldSpec, concrete: bool, cat: &Catalogue, style: u8, type_p
         a.push("needs_predicate".into());
     }
     if let Some(r) = &f.rename {
-        a.push(format!("rename = {:?}", r));
+        a.push(format!("rename = {}", rename_lit(r, style)));
     }
     match f.default {
         DefaultSpec::None => {}
         DefaultSpec::Trait => a.push("default".into()),
-        DefaultSpec::Expr => a.push(format!("default = {}", default_expr(f))),
+        // plain, parenthesised, or as a block
+        DefaultSpec::Expr => a.push(match style {
+            1 => format!("default = ({})", default_expr(f)),
+            3 => format!("default = {{ {} }}", default_expr(f)),
+            _ => format!("default = {}", default_expr(f)),
+        }),
     }
     if f.skip {
         a.push("skip".into());
@@ -83,13 +137,13 @@ fn field_attrs(f: &FieldSpec, concrete: bool, cat: &Catalogue, style: u8, type_p
     let o = if f.conv_opt_decl { "_o" } else { "" };
     match f.conv {
         Conv::None => {}
-        Conv::From { by_ref: false } => a.push(format!("from({via}) = from_inc{o}")),
-        Conv::From { by_ref: true } => a.push(format!("from(&{via}) = from_ref{o}")),
-        Conv::TryFrom { by_ref: false } => a.push(format!("try_from({via}) = try_even{o} -> ConvErr")),
-        Conv::TryFrom { by_ref: true } => a.push(format!("try_from(&{via}) = try_ref{o} -> ConvErr")),
+        Conv::From { by_ref: false } => a.push(format!("from({via}) = {}", fn_path(&format!("from_inc{o}"), style))),
+        Conv::From { by_ref: true } => a.push(format!("from(&{via}) = {}", fn_path(&format!("from_ref{o}"), style))),
+        Conv::TryFrom { by_ref: false } => a.push(format!("try_from({via}) = {} -> ConvErr", fn_path(&format!("try_even{o}"), style))),
+        Conv::TryFrom { by_ref: true } => a.push(format!("try_from(&{via}) = {} -> mc_core::prelude::ConvErr", fn_path(&format!("try_ref{o}"), style))),
     }
     if f.map {
-        a.push("map = map_bump".into());
+        a.push(format!("map = {}", fn_path("map_bump", style)));
     }
     if f.missing_fn {
         a.push(format!(
@@ -172,11 +226,20 @@ fn validate_attr(concrete: bool, same_err: bool) -> String {
     }
 }
 
-fn emit_fields(out: &mut String, fields: &[FieldSpec], concrete: bool, cat: &Catalogue, vis: &str, style: u8, generic: bool) {
+/// `generic`: None, or the generic shape (see `StructSpec::generic_kind`).
+fn emit_fields(out: &mut String, fields: &[FieldSpec], concrete: bool, cat: &Catalogue, vis: &str, style: u8, generic: Option<u8>) {
     for (n, f) in fields.iter().enumerate() {
-        let type_param = generic && n == 0;
-        out.push_str(&field_attrs(f, concrete, cat, style, type_param));
-        let _ = writeln!(out, "    {vis}{}: {},", f.ident, if type_param { "T".to_string() } else { decl_ty(f, cat) });
+        let decl: Option<&str> = match generic {
+            Some(_) if n == 0 => Some("T"),
+            Some(1) if n + 1 == fields.len() => Some("P<[P<u8>; N]>"),
+            Some(2) if n == 1 => Some("P<Vec<U>>"),
+            _ => None,
+        };
+        // a declared type that mentions a type parameter needs the predicate; the const-generic
+        // array does not
+        let needs_predicate = matches!(decl, Some("T") | Some("P<Vec<U>>"));
+        out.push_str(&field_attrs(f, concrete, cat, style, needs_predicate));
+        let _ = writeln!(out, "    {vis}{}: {},", f.ident, decl.map(|d| d.to_string()).unwrap_or_else(|| decl_ty(f, cat)));
     }
 }
 
@@ -185,19 +248,30 @@ pub fn emit_item(out: &mut String, i: usize, cat: &Catalogue) {
     match &cat.items[i] {
         Item::Struct(s) => {
             let all: Vec<&FieldSpec> = s.fields.iter().collect();
-            let attrs = container_attrs(s.rename_all, s.deny, s.validate, s.concrete, None, &all, s.same_err);
+            let mut attrs = container_attrs(s.rename_all, s.deny, s.validate, s.concrete, None, &all, s.same_err);
+            if s.generic && s.validate {
+                // the validate function dumps the value: the parameters must be dumpable
+                attrs.push("where_predicate = T: Dump".into());
+                if s.generic_kind == 2 {
+                    attrs.push("where_predicate = U: Dump".into());
+                }
+            }
             let _ = writeln!(out, "#[derive(Debug, Deserr)]");
             out.push_str(&render_attrs(attrs, s.style, ""));
+            let (decl_generics, impl_generics, use_generics, where_clause) = match (s.generic, s.generic_kind) {
+                (false, _) => ("", "", "", ""),
+                (true, 0) => ("<T>", "<T: Dump>", "<T>", ""),
+                (true, 1) => ("<T, const N: usize>", "<T: Dump, const N: usize>", "<T, N>", ""),
+                (true, _) => ("<T, U>", "<T: Dump, U: Dump>", "<T, U>", " where T: ::std::fmt::Debug"),
+            };
             if s.generic {
                 assert!(s.fields[0].conv == Conv::None && !s.fields[0].has_default() && !s.fields[0].skip && !s.fields[0].map);
-                let _ = writeln!(out, "pub struct {name}<T> {{");
-            } else {
-                let _ = writeln!(out, "pub struct {name} {{");
             }
-            emit_fields(out, &s.fields, s.concrete, cat, "pub ", s.style, s.generic);
+            let _ = writeln!(out, "pub struct {name}{decl_generics}{where_clause} {{");
+            emit_fields(out, &s.fields, s.concrete, cat, "pub ", s.style, if s.generic { Some(s.generic_kind) } else { None });
             let _ = writeln!(out, "}}");
             if s.generic {
-                let _ = writeln!(out, "impl<T: Dump> Dump for {name}<T> {{\n    fn dump(&self) -> Doc {{\n        Doc::Obj(vec![");
+                let _ = writeln!(out, "impl{impl_generics} Dump for {name}{use_generics}{where_clause} {{\n    fn dump(&self) -> Doc {{\n        Doc::Obj(vec![");
             } else {
                 let _ = writeln!(out, "impl Dump for {name} {{\n    fn dump(&self) -> Doc {{\n        Doc::Obj(vec![");
             }
@@ -216,11 +290,11 @@ pub fn emit_item(out: &mut String, i: usize, cat: &Catalogue) {
                 let _ = writeln!(out, "#[derive(Debug, Deserr)]");
             }
             out.push_str(&render_attrs(attrs, e.style, ""));
-            let _ = writeln!(out, "pub enum {name} {{");
+            let _ = writeln!(out, "pub enum {name}{} {{", if e.generic { "<T>" } else { "" });
             for v in &e.variants {
                 let mut a = vec![];
                 if let Some(r) = &v.rename {
-                    a.push(format!("rename = {:?}", r));
+                    a.push(format!("rename = {}", rename_lit(r, e.style)));
                 }
                 if let Some(r) = v.rename_all {
                     a.push(format!("rename_all = {}", rename_all_str(r)));
@@ -233,7 +307,8 @@ pub fn emit_item(out: &mut String, i: usize, cat: &Catalogue) {
                     Some(fs) => {
                         let _ = writeln!(out, "    {} {{", v.ident);
                         let mut inner = String::new();
-                        emit_fields(&mut inner, fs, e.concrete, cat, "", e.style, false);
+                        let is_generic_variant = e.generic && std::ptr::eq(v, &e.variants[1]);
+                        emit_fields(&mut inner, fs, e.concrete, cat, "", e.style, if is_generic_variant { Some(0) } else { None });
                         for l in inner.lines() {
                             let _ = writeln!(out, "    {l}");
                         }
@@ -242,7 +317,11 @@ pub fn emit_item(out: &mut String, i: usize, cat: &Catalogue) {
                 }
             }
             let _ = writeln!(out, "}}");
-            let _ = writeln!(out, "impl Dump for {name} {{\n    fn dump(&self) -> Doc {{\n        match self {{");
+            if e.generic {
+                let _ = writeln!(out, "impl<T: Dump> Dump for {name}<T> {{\n    fn dump(&self) -> Doc {{\n        match self {{");
+            } else {
+                let _ = writeln!(out, "impl Dump for {name} {{\n    fn dump(&self) -> Doc {{\n        match self {{");
+            }
             for v in &e.variants {
                 match &v.fields {
                     None => {
